@@ -110,7 +110,7 @@ options1 int `{ , }`
 //
 ,
 }")).
-Eval vm_compute in ("<<<M382>>>" ++ check (runes_of_ascii "options {
+Eval vm_compute in ("<<<M383>>>" ++ check (runes_of_ascii "options {
 	StringPrefixLenType = u16;
 	ArrayPrefixLenType = u16;
 }
@@ -174,569 +174,473 @@ packet Detail {
     string RuleName `" ++ [35268; 21017; 21517; 31216]%N ++ runes_of_ascii "`,
     u16 Code `" ++ [21407; 22240; 20195; 30721]%N ++ runes_of_ascii "`,
 }")).
-Eval vm_compute in ("<<<M1766>>>" ++ check (runes_of_ascii "root packet metadata {
-    @lengthOf(options1)
-    int32 zchar @calculatedFrom(""// no comment"") `
-        `,
-    repeat calculatedFrom `it's`,//
-    match BodyLength as lengthOf {
-        3 : leftPad,
-    },
-    repeat u128,
-    char[10] chars,// @lengthOf(
-    falsey @calculatedFrom(""x y"") `{ , }`,
-    @tag(42)
-    float64 i64_,
-    u8x @calculatedFrom(""{,}"") `two words`,
-    @lengthOf(T)
-    char[255] pack `it's`,
-    match MetaDataX as i64_ {
-        //
-        """ ++ [28040; 24687]%N ++ runes_of_ascii """ : Header,
-        0 : x_y_z,
-        3 : int,
-        ""abc"" : u8x,
-    },
+Eval vm_compute in ("<<<M149>>>" ++ check (runes_of_ascii "// trailing space 
+packet
+    charz {	@calculatedFrom( ""1""
+)match x
+as tag
+    {	[
+7 , // @lengthOf(
+0
+, 65535	,
+    // `tick` ""quote"" 'q'
+    ""it's""/// triple
+,0
+    ,
+""x y"", 255 ] :tag  , [ ""1"" // a // b
+, //	t
+3  , 007, // " ++ [27880; 37322]%N ++ runes_of_ascii "
+255 ,  ""x y""
+    // @lengthOf(
+    ] :pack ,[""" ++ [233]%N ++ runes_of_ascii "t" ++ [233]%N ++ runes_of_ascii """	, 7  , 10  , 3
+, 0
+    , ""a\""b"" ] :
+    // packet A { u8 x, }
+    leftPad, [ 65535
+    // " ++ [27880; 37322]%N ++ runes_of_ascii "
+    ,
+""x y""]
+: chars [ ""\n"" ,65535 , ""a\\""
+] :
+A	, ""\n"" :
+    lengthOf , } ,
+match string_
+    as	i8i8 { 7 :msg_type , // c
+""abc"" :
+tag ,""a\""b"" :metadata, 255
+    : matchKey	,
+    [""CRC32"" ,""1""
+// " ++ [27880; 37322]%N ++ runes_of_ascii "
+// " ++ [128512]%N ++ runes_of_ascii " emoji
+, 007 , ""packet"" ,""a\\"" /// triple
+,	""a\""b""
+    // " ++ [128512]%N ++ runes_of_ascii " emoji
+    , 007 , 4294967296 ] : lengthOf , }
+,uint16
+pack , string Pad@lengthOf( o ) `say ""hi""` ,repeat i8 body
+    ,
+@lengthOf( //x
+crc ) float64 body `// not a comment`
+, repeat rootA { int16 x_y_z `tab	here` ,
+falsey @calculatedFrom( ""{,}"" ), trueish @lengthOf(
+crc) `{ , }` , }
+, match Pad as
+Header
+{
+    4294967296: Header,""\n"" :msg_type,""a	b"" :
+    x_y_z
+    , }
+,
+    //	t
+    Logon
+, } 	 ")).
+Eval vm_compute in ("<<<M289>>>" ++ check (runes_of_ascii "options  {
+// " ++ [27880; 37322]%N ++ runes_of_ascii "
+//x
+float // packet A { u8 x, }
+=char[]
+    // @lengthOf(
+    ; Header = false
+//
+/// triple
+}
+    // `tick` ""quote"" 'q'
+    options {	x =char[] ; }	MetaData i64_{f64 As
+    /// triple
+    `
+` , repeatCount MetaDataX
+// `tick` ""quote"" 'q'
+// `tick` ""quote"" 'q'
+,
+repeatCount u128 //x
+,	metadata msg_type `tab	here`
+    ,
+    }
+packet  options1
+    {
+    repeat char[0123456789] T  , @tag(  65535
+)
+    //x
+    @calculatedFrom( ""CRC32""
+) @calculatedFrom( """ ++ [28040; 24687]%N ++ runes_of_ascii """ ) repeat string
+Logon
+    ,	@lengthOf( u128 )
+stringy  {string_ x ,
+} , @tag( // " ++ [27880; 37322]%N ++ runes_of_ascii "
+10) u64 tag @lengthOf(roots), Foo	@lengthOf(
+Foo
+)`// not a comment` ,
+string pack `a\` , match A
+    as charz {
+[ 3 ] : x ,} ,@tag(42 ) f64 msg_type @lengthOf(
+trueish )
+,match	pack /// triple
+as
+options1 { """ ++ [28040; 24687]%N ++ runes_of_ascii """ : // packet A { u8 x, }
+string_ ,	[ 65535, 7 ,
+""a\""b""
+    , 7]//	t
+: f32a 4294967296: o ,  }	,
+    char[] falsey ,
+} // " ++ [128512]%N ++ runes_of_ascii " emoji")).
+Eval vm_compute in ("<<<M168>>>" ++ check (runes_of_ascii "options
+//x
+// @lengthOf(
+{
+    Foo =""// no comment""
+/// triple
+//	t
+; }
+packet float {
+} packet
+    len { @lengthOf(
+    _x ) stringy{
+    metadata	@calculatedFrom( ""a\\"" )
+, } ,
+//x
+//
+}	packet asx {
+@tag( 0 ) repeat float64
+A`say ""hi""` ,
+//
+// trailing space 
+i16 int
+    `say ""hi""` , @calculatedFrom( """ ++ [128512]%N ++ runes_of_ascii """) lengthOf Header `two words` ,
+f32a
+    zchar , @rightPad
+    ( '0'
+)repeat string_
+    // packet A { u8 x, }
+    chars ``  , @tag( 4294967296)
+    @calculatedFrom( ""a	b"" )repeat
+    msg_type,  @leftPad( ) repeat f64 _x ,	repeat As { Logon @lengthOf(
+calculatedFrom) `two words` ,
+    repeat u64 o `u8 x,`	, } , @calculatedFrom(
+""packet"" ) repeat // @lengthOf(
+uint8 u ,} packet
+uint8x{@leftPad ( '0'
+    )
+//	t
+//x
+zchar[
+// packet A { u8 x, }
+// " ++ [27880; 37322]%N ++ runes_of_ascii "
+255
+    ]	metadata `a\`
+    ,//
+} // `tick` ""quote"" 'q'")).
+Eval vm_compute in ("<<<M90>>>" ++ check (runes_of_ascii "root packet lengthOf
+{ // a // b
+match i64_  as options1{	""// no comment"":
+    // packet A { u8 x, }
+    f32a
+    // @lengthOf(
+    , 65535 :
+    falsey, } ,  @tag(
+0
+)  char[]
+    body
+@lengthOf(  lengthOf ) ,	u64 string_ `it's`,@lengthOf( string_ // packet A { u8 x, }
+)crc {repeat
+zchar[ 3
+] u	,	pack // packet A { u8 x, }
+`a\`// trailing space 
+,char[] crc `` , } //x
+,int16 // packet A { u8 x, }
+metadata `line1
+line2`, }root	packet //	t
+leftPad
+{ repeat	zchar[
+4294967296 //x
+] MetaDataX
+    ,@tag( 10 // `tick` ""quote"" 'q'
+) match  tag as falsey
+{ 7:
+    BodyLength
+, 0 : i64_ ,} , repeat char[ 255
+    // @lengthOf(
+    ] A
+,
+char[ 7]
+trueish @calculatedFrom(	""a\\"" ) `two words`
+// " ++ [128512]%N ++ runes_of_ascii " emoji
+//	t
+, i16
+Logon, }
+")).
+Eval vm_compute in ("<<<M6>>>" ++ check (runes_of_ascii "// `tick` ""quote"" 'q'
+packet As
+{ @rightPad ( '0' ) stringy
+@lengthOf( calculatedFrom),	@tag( 10	) string uint8x `
+` ,	match body // packet A { u8 x, }
+as uint8x {
+    ""it's"" :  rootA , [ 00 ] : leftPad
+    ,
+42 :	MetaDataX , ""a	b"" :  calculatedFrom
+    255
+:trueish	} , repeat	i64 Logon `tab	here` , } options {crc
+= '\x00' ;}
+packet x { @calculatedFrom(
+""a\\""
+    )
+@tag( 42
+) @leftPad	( '0' // c
+) match o	as /// triple
+x_y_z {// packet A { u8 x, }
+[ """ ++ [128512]%N ++ runes_of_ascii """// trailing space 
+, ""x y"" , // c
+0123456789 ,""CRC32"" ,
+//	t
+// packet A { u8 x, }
+""it's""
+, 007
+, 3, 007 // @lengthOf(
+] :	Packet // c
+[	255, ""x y""
+    ] :x_y_z
+    ,
+} , }
+// trailing space 
+")).
+Eval vm_compute in ("<<<M131>>>" ++ check (runes_of_ascii "
+root
+packet
+u8x{ char
+// trailing space 
+// @lengthOf(
+i64_ ,repeat char[1
+] Z9_ , @tag(
+//x
+// " ++ [128512]%N ++ runes_of_ascii " emoji
+42
+) repeat Logon MetaDataX , @leftPad
+    //
+    ( )
+    Foo
+@lengthOf( As
+    ) // " ++ [128512]%N ++ runes_of_ascii " emoji
+, match u128	as //	t
+calculatedFrom {// " ++ [128512]%N ++ runes_of_ascii " emoji
+4294967296:
+BodyLength,
+    3:  A , //
+[ 4294967296//
+, ""packet""] : o	, 65535 : roots } ,
+repeat Pad { uint64 x @calculatedFrom( """ ++ [128512]%N ++ runes_of_ascii """
+    ) , a1 @lengthOf( As)
+    `line1
+line2` ,	repeat string_{repeat uint32 _x	, f32
+MetaDataX `it's`
+    //	t
+    , u64 As  @lengthOf( crc ) , } ,
+    roots , }, zchar[  00] // @lengthOf(
+u128, }
+//	t
+")).
+Eval vm_compute in ("<<<M1887>>>" ++ check (runes_of_ascii "  // top
+	  options 
+    // c0
+  {
+// c1
+      f32a
+
+    // c2
+
+= 
+    // c3
+	  0
+    // c4
+  } 
+// c5
+packet
+        // c6
+
+trueish
+
+// c7
+{ 
+  // c8
+	}
+	// c9
+	MetaData 
+	    // c10
+
+  _x
+// c11
+
+{ 
+  // c12
+    char[ 
+// c13
+	0123456789
+        // c14
+  ] 
+    // c15
+
+zchar
+	// c16
+  , 
+    // c17
+  string  
+      // c18
+crc 
+
+    // c19
+  	, 
+        // c20
+
+	char[
+    // c21
+      1 
+  // c22
+	  ] 
+	    // c23
+options1
+    // c24
+,  
+  // c25
+	uint8 
+
+// c26
+  repeatCount
+// c27
+,
+	// c28
+	} 
+  // c29")).
+Eval vm_compute in ("<<<M294>>>" ++ check (runes_of_ascii "options { rootA = 4294967296 ; falsey = ""a\""b""
+;
+As =
+// @lengthOf(
+/// triple
+""""
+;packetx
+    = ""packet"" i8i8 =true ;
+} // `tick` ""quote"" 'q'
+packet x  { repeat zchar
+rootA , char[]
+    pack  `// not a comment`
+,@tag( 00 )
+@tag( 0123456789)
+u @calculatedFrom( ""packet"" )`u8 x,` , Header{
+    zchar[ 00
+    ] body
+,
+    a1	@calculatedFrom( // " ++ [128512]%N ++ runes_of_ascii " emoji
+""it's"" )
+`" ++ [233]%N ++ runes_of_ascii "`, }, } // " ++ [27880; 37322]%N ++ runes_of_ascii "
+MetaData
+    A // a // b
+{zchar /// triple
+matchKey
+    `` , int64 metadata ,char[] _x //	t
+, }
+")).
+Eval vm_compute in ("<<<M1622>>>" ++ check (runes_of_ascii "MetaData pack {
+    int16 rootA `{ , }`,
+    //	t
+    int16 x,// " ++ [27880; 37322]%N ++ runes_of_ascii "
+    u32 msg_type,
 }
 
 packet i64_ {
-    @rightPad()
-    /// triple
-    pack {
-        match MetaDataX as trueish {
-            1 : len,
-            00 : falsey,
-            """" : x,
-        },
-    },
-    @tag(1)
-    char[] int @lengthOf(metadata),
-    a1 @lengthOf(calculatedFrom),
-    @tag(7)
-    tag @lengthOf(u),
-    BodyLength @calculatedFrom(""it's"") `say ""hi""`,
-    string msg_type,
-}
-
-MetaData Logon {
-    BodyLength _x `it's`,
-    int32 body,
-}
-
-root packet body {
-}")).
-Eval vm_compute in ("<<<M1368>>>" ++ check (runes_of_ascii "// top
-options
-    // c0
-{ // c1
-LittleEndian =
-    // c3
-true
-    // c4
-; // c5a
-  // c5b
-} // c6
-packet // c7a
-  // c7b
-Logon // c8a
-  // c8b
-{ u8
-    // c10
-x // c11a
-  // c11b
-, // c12
-} // c13a
-  // c13b
-packet // c14a
-  // c14b
-Logout // c15
-{
-    // c16
-u16
-    // c17
-reason
-    // c18
-, // c19a
-  // c19b
-}
-    // c20
-root packet Frame { // c24
-u16 // c25a
-  // c25b
-Kind // c26
-, // c27a
-  // c27b
-u16
-    // c28
-Kind2 // c29a
-  // c29b
-, match Kind
-    // c32
-as // c33
-Body // c34
-{
-    // c35
-1 : // c37
-Logon // c38a
-  // c38b
-,
-    // c39
-[ // c40
-2 , // c42
-3
-    // c43
-, // c44
-4 ] :
-    // c47
-Logout
-    // c48
-, // c49
-100
-    // c50
-:
-    // c51
-Logon // c52a
-  // c52b
-,
-    // c53
-} , match Kind2 // c57a
-  // c57b
-as
-    // c58
-Trailer // c59
-{ // c60
-0 // c61a
-  // c61b
-: // c62
-Logout // c63a
-  // c63b
-,
-    // c64
-} // c65a
-  // c65b
-,
-    // c66
-} // c67
-")).
-Eval vm_compute in ("<<<M1377>>>" ++ check (runes_of_ascii "// top
-options
-    // c0
-{
-    // c1
-LittleEndian = // c3a
-  // c3b
-true // c4a
-  // c4b
-; // c5
-} // c6
-packet // c7
-Logon { // c9a
-  // c9b
-u8 x
-    // c11
-, }
-    // c13
-packet
-    // c14
-Logout // c15
-{ u16
-    // c17
-reason // c18a
-  // c18b
-, // c19
-} root // c21
-packet
-    // c22
-Frame {
-    // c24
-i8 Kind // c26
-, i8 // c28
-Kind2 , // c30a
-  // c30b
-match // c31
-Kind // c32a
-  // c32b
-as // c33
-Body // c34a
-  // c34b
-{
-    // c35
-1
-    // c36
-: // c37a
-  // c37b
-Logon // c38
-, // c39
-[ 2 // c41a
-  // c41b
-, // c42a
-  // c42b
-3 , // c44
-4 ] // c46
-: // c47
-Logout
-    // c48
-, // c49
-100 // c50
-: // c51
-Logon , }
-    // c54
-, // c55
-match Kind2 // c57
-as // c58a
-  // c58b
-Trailer // c59a
-  // c59b
-{
-    // c60
-0
-    // c61
-:
-    // c62
-Logout , // c64
-} // c65
-, // c66a
-  // c66b
-} // c67a
-  // c67b
-")).
-Eval vm_compute in ("<<<M1618>>>" ++ check (runes_of_ascii "// packet A { u8 x, }
-root packet leftPad {
-    @calculatedFrom(""`tick`"")
-    @rightPad()
-    // " ++ [128512]%N ++ runes_of_ascii " emoji
-    string_ @lengthOf(tag) `a\`,
-    i64 T `" ++ [233]%N ++ runes_of_ascii "`,//	t
-}
-
-packet Pad {
-    @lengthOf(float)
-    char[] x @calculatedFrom(""a\""b""),// trailing space 
-    @tag(0)
-    // " ++ [27880; 37322]%N ++ runes_of_ascii "
-    repeatCount,
-    repeat rootA {
-        _x,
-        zchar[3] roots `crlf
-        line`,
-    },
-    /// triple
-    // a // b
-    match metadata as BodyLength {
-        [
-            10, 10, 4294967296, ""a\""b"", """",
-            ""\n"", ""a\\""
-        ] : u,
-    },
-    repeat i64_ Packet `" ++ [28040; 24687; 31867; 22411]%N ++ runes_of_ascii "`,
-    @tag(65535)
-    char[] float `it's`,
-    char[7] x @calculatedFrom(""{,}""),
-}
-
-MetaData leftPad {
-    body rootA `crlf
-    line`,
-    int64 msg_type `doc`,
-}")).
-Eval vm_compute in ("<<<M1120>>>" ++ check (runes_of_ascii "// top
-root
-    // c0
-packet
-    // c1
-_x
-    // c2
-{
-    // c3
-match
-    // c4
-Foo
-    // c5
-as
-    // c6
-Z9_
-    // c7
-{
-    // c8
-""a	b""
-    // c9
-:
-    // c10
-Pad
-    // c11
-,
-    // c12
-}
-    // c13
-,
-    // c14
-repeat
-    // c15
-x
-    // c16
-`line1
-line2`
-    // c17
-,
-    // c18
-@rightPad
-    // c19
-(
-    // c20
-' '
-    // c21
-)
-    // c22
-@calculatedFrom(
-    // c23
-""a\\""
-    // c24
-)
-    // c25
-metadata
-    // c26
-MetaDataX
-    // c27
-,
-    // c28
-@tag(
-    // c29
-0
-    // c30
-)
-    // c31
-Logon
-    // c32
-int
-    // c33
-``
-    // c34
-,
-    // c35
-}
-    // c36
-options
-    // c37
-{
-    // c38
-T
-    // c39
-=
-    // c40
-'\x00'
-    // c41
-}
-    // c42
-")).
-Eval vm_compute in ("<<<M1118>>>" ++ check (runes_of_ascii "MetaData Packet
-    // c1
-{ // c2
-} packet // c4a
-  // c4b
-charz // c5a
-  // c5b
-{ // c6a
-  // c6b
-Foo // c7
-asx `it's` ,
-    // c10
-@lengthOf( // c11
-T )
-    // c13
-@calculatedFrom(
-    // c14
-"""" // c15
-)
-    // c16
-@calculatedFrom(
-    // c17
-""x y"" // c18
-) // c19a
-  // c19b
-zchar[ 007 // c21
-] repeatCount @lengthOf(
-    // c24
-int // c25
-)
-    // c26
-`a\`
-    // c27
-, // c28a
-  // c28b
-i8
-    // c29
-string_ // c30a
-  // c30b
-, // c31
-repeat // c32
-options1 // c33
-Pad
-    // c34
-, } // c36a
-  // c36b
-root packet
-    // c38
-Packet { int8 // c41
-float `doc` // c43
-, // c44
-}
-    // c45
-")).
-Eval vm_compute in ("<<<M64>>>" ++ check (runes_of_ascii "
-MetaData //	t
-body { T
-    calculatedFrom, string f32a `line1
-line2`, leftPad BodyLength
-`tab	here` ,
-}options {
-}
-MetaData
-    options1	{
-char[ 3 ] MetaDataX
-// " ++ [128512]%N ++ runes_of_ascii " emoji
-/// triple
-`" ++ [28040; 24687; 31867; 22411]%N ++ runes_of_ascii "` ,  BodyLength x	`
-`,u16 tag	`say ""hi""`, u8
-float ,float32 As `
-`
-    ,
-    i8i8 Z9_ `
-`, } packet u { @tag( 42
-) options1 // c
-o `crlf
-line` ,@calculatedFrom( ""`tick`""
-// packet A { u8 x, }
-// a // b
-) repeat
-    char[]	a1
-    //x
-    ,	} options
-    { uint8x=
-true
-    A
-= // `tick` ""quote"" 'q'
-7 ; // packet A { u8 x, }
-len=	""" ++ [128512]%N ++ runes_of_ascii """
-    }")).
-Eval vm_compute in ("<<<M1381>>>" ++ check (runes_of_ascii "packet tag {
-    string matchKey `line1
-    line2`,
-    @tag(0)
-    @calculatedFrom(""1"")
-    @calculatedFrom(""a\""b"")
-    float64 matchKey,
+    // trailing space 
+    @leftPad('0')
+    @rightPad('\x00')
+    @lengthOf(options1)
+    string body @lengthOf(asx) `" ++ [233]%N ++ runes_of_ascii "`,
 }
 
 options {
-    crc = true
-    msg_type = true;
+    msg_type = 00;
 }
 
-packet o {
-    match roots as calculatedFrom {
-        ""// no comment"" : msg_type,
-        ""{,}"" : u128,
-        [65535, 0123456789] : body,
-        // " ++ [128512]%N ++ runes_of_ascii " emoji
-    },
-    @rightPad(' ')
-    repeat string_ i64_,
-    @lengthOf(lengthOf)
-    @tag(255)
-    @tag(00)
-    char[] stringy,
-}")).
-Eval vm_compute in ("<<<M68>>>" ++ check (runes_of_ascii "
-packet
-    Header {  match roots  as packetx
-// " ++ [27880; 37322]%N ++ runes_of_ascii "
-//	t
-{
+MetaData stringy {
+    zchar MetaDataX `line1
+    line2`,
+    char[255] len `it's`,
+    f32 pack,
+    uint16 Foo `it's`,
+    int16 i64_ `two words`,
     // `tick` ""quote"" 'q'
-    [
-""" ++ [28040; 24687]%N ++ runes_of_ascii """ ,
-    0123456789 ]:packetx,
-//
-// c
-4294967296
-    : Logon ,	[ ""\n""
-    ,""x y"" , // " ++ [128512]%N ++ runes_of_ascii " emoji
-""packet"" , ""packet"" ] : i8i8 , 42 // `tick` ""quote"" 'q'
-:Foo
-    ,
-}, //	t
-@calculatedFrom( ""x y""	) f64 Logon ,} options
-    {
-    // " ++ [128512]%N ++ runes_of_ascii " emoji
-    chars=
-' '
-    ; repeatCount =
-""" ++ [233]%N ++ runes_of_ascii "t" ++ [233]%N ++ runes_of_ascii """ x	= ""\n"" ; calculatedFrom = ""`tick`"" //x
-; }
-")).
-Eval vm_compute in ("<<<M1806>>>" ++ check (runes_of_ascii "root packet body {
-    @lengthOf(int)
-    string tag,
-    Pad BodyLength,
-    Z9_ {
-        /// triple
-        u ``,
-        zchar[7] u,
-    },
-    uint64 calculatedFrom,
-}
-
-packet msg_type {
-    match f32a as pack {
-        ""// no comment"" : trueish,
-    },
-    @calculatedFrom(""abc"")
-    @leftPad(' ')
-    @calculatedFrom("""")
-    // c
-    matchKey T,// `tick` ""quote"" 'q'
 }")).
-Eval vm_compute in ("<<<M1538>>>" ++ check (runes_of_ascii "
-root packet
-int{
+Eval vm_compute in ("<<<M1627>>>" ++ check (runes_of_ascii "// top
+    	packet 
 
-match
+// c0
+B
 
-MetaDataX 
-as
-    charz {
-    255 :  uint8x	,  65535
+    // c1
 
-    :  // @lengthOf(
-	u128 ""\" ++ [233]%N ++ runes_of_ascii """  :	o
-    ,
-0123456789 :_x""{,}""
-:
-
-matchKey
-        // `tick` ""quote"" 'q'
-  // `tick` ""quote"" 'q'
-
-[4294967296
-
-    ,
-    """"
-, 
-10
-	]	: charz ,
-
-}
-	,
+{	// c2
+	u8  
+  // c3
+      a 	 // c4
+  , string  // c6
+	s 
+	    // c7
+,}
+	root	// c10
+    	packet 
+    // c11
+  P  // c12a
+  // c12b
+	{
+	    // c13
+	u16 
+	    // c14
+  L	// c15a
+  	// c15b
 	@lengthOf(
-roots 
-)	x	@calculatedFrom(
-""\n""
-    )
-, 
-i32
+B 
+      // c17
+  ) 
 
-tag ,  }
+// c18
+  ,
+        // c19
+    B  
+      // c20
+  ,
+u8	// c22a
+    // c22b
 
+t
+    // c23
+		, 	 // c24
+	}
+")).
+Eval vm_compute in ("<<<M1234>>>" ++ check (runes_of_ascii "// top
+options // c0
+{ // c1
+f32a // c2
+= // c3
+0 // c4
+} // c5
+packet // c6
+trueish // c7
+{ // c8
+} // c9
+MetaData // c10
+_x // c11
+{ // c12
+char[ // c13
+0123456789 // c14
+] // c15
+zchar // c16
+, // c17
+string // c18
+crc // c19
+, // c20
+char[ // c21
+1 // c22
+] // c23
+options1 // c24
+, // c25
+uint8 // c26
+repeatCount // c27
+, // c28
+} // c29
 ")).
 Eval vm_compute in ("<<<M57>>>" ++ check (runes_of_ascii "packet	tag { }
 packet falsey
@@ -753,36 +657,39 @@ char[] leftPad @calculatedFrom(
 , }
 
 ")).
-Eval vm_compute in ("<<<M130>>>" ++ check (runes_of_ascii "packet zchar { @lengthOf( a1
-// " ++ [128512]%N ++ runes_of_ascii " emoji
-//	t
-) i64_ @lengthOf( Header )
-`" ++ [28040; 24687; 31867; 22411]%N ++ runes_of_ascii "`, charz`" ++ [233]%N ++ runes_of_ascii "` , char[007] i64_ , tag  { u16  matchKey // " ++ [27880; 37322]%N ++ runes_of_ascii "
-,match Pad as lengthOf { [""CRC32"" ,	""abc""
-] : Packet
-,	}
+Eval vm_compute in ("<<<M1580>>>" ++ check (runes_of_ascii "options {
+    LittleEndian = false;
+    StringPrefixLenType = u16;
+}
+
+packet Heartbeat {
+    @rightPad('0')
+    char[7] seqNo,
+    uint64 Tail,
+    i16 Flags,
+    u16 msgKind,
+}
+
+root packet Reject {
+    zchar[3] tag7,
+    repeat Heartbeat,
+    repeat string clOrdID,
+}")).
+Eval vm_compute in ("<<<M97>>>" ++ check (runes_of_ascii "packet
+i8i8 { repeat char[	00 ] Pad
+    `a\` ,
+@leftPad
+    (
+'\x00') string	a1@lengthOf(tag )``, float64
+    u128 @calculatedFrom( ""1""
+)  ,	@lengthOf( x
+    )
+    u128 @lengthOf( tag )
+`" ++ [28040; 24687; 31867; 22411]%N ++ runes_of_ascii "` , int64 u ,
+A//x
+T
+    `say ""hi""`
 , }
-    , } MetaData body {char[
-    10 ]u128
-    `doc`
-    ,
-/// triple
-//x
-} //x")).
-Eval vm_compute in ("<<<M267>>>" ++ check (runes_of_ascii "packet trueish{
-@leftPad (// @lengthOf(
-'0'  ) @tag(  3/// triple
-) @tag(
-7 ) repeat
-//x
-// @lengthOf(
-matchKey
-{ u32 u,
-}  , @lengthOf( chars
-) @calculatedFrom(
-""a	b"") @tag( 0123456789
-    )zchar[255 ]Pad ,  } root
-    packet u { }
 ")).
 Eval vm_compute in ("<<<M367>>>" ++ check (runes_of_ascii "
 packet roots  { @calculatedFrom( ""a\\"" ) @lengthOf( packetx  ) match repeatCount
@@ -796,48 +703,51 @@ char[] chars
 MetaData packetx
     {}
 ")).
-Eval vm_compute in ("<<<M1933>>>" ++ check (runes_of_ascii "packet
+Eval vm_compute in ("<<<M1295>>>" ++ check (runes_of_ascii "packet
+    A{ 
+u8 a,
+}packet
+B
 
-A{	match
+{u16
+	b
 
-    k  as
-n
-    {
-	[ 
-""a"" 
-,
-""bb""
-, ""c c""
-,  ""d""
+    , } root
+packet 
+P
 
-    ,	""e"" ,
-""f"",
+    {  u8
+    K1
+, u8
 
-""g"", ""h""
-
-    ,  ""i""	,
-	""j""
-	, 
-""k""
-,
-
-    ""l""  ]:
-
-    B  2
+K2 
+,match K1
+	as	M1
+{
+1
     :
-    C  }
-,
-}")).
-Eval vm_compute in ("<<<M1603>>>" ++ check (runes_of_ascii "packet A {
-    match k as n {
-        [
-            1, 22, 4, 5, 7,
-            8, 10, 11, ""c c"", ""f"",
-            ""i"", ""l""
-        ] : B,
-        2 : C,
-    },
-}")).
+
+A,
+
+    } ,	match
+
+K2
+as M2  {
+1:B ,
+    }
+    ,}
+")).
+Eval vm_compute in ("<<<M283>>>" ++ check (runes_of_ascii "
+root packet /// triple
+u8x {}options { o =	zchar[ 1 ]
+    Packet
+    // trailing space 
+    =u32 ; uint8x =""a\\"";
+    /// triple
+    u8x
+=0
+;
+    crc =""\n"" ; }")).
 Eval vm_compute in ("<<<M443>>>" ++ check (runes_of_ascii "packet uint8x
 { match pack
     as msg_type	{
@@ -860,8 +770,8 @@ a1
     { { } options {packetx
     = '\x00'	; u128= ""a	b""  ; }
 ")).
-Eval vm_compute in ("<<<M393>>>" ++ check (runes_of_ascii "uint8x packet
-{ match pack
+Eval vm_compute in ("<<<M397>>>" ++ check (runes_of_ascii "packet {
+uint8x match pack
     as msg_type	{
     0123456789 :	float
 }
@@ -871,16 +781,27 @@ a1
     { } options {packetx
     = '\x00'	; u128= ""a	b""  ; }
 ")).
-Eval vm_compute in ("<<<M673>>>" ++ check (runes_of_ascii "// @lengthOf(
-packet i8i8 { u128 o , }
-options { MetaDataX = true;
-    BodyLength =""packet"" x_y_z float64 007
-crc //x
-= ""abc"" ;
-    msg_type =
-i16 }")).
-Eval vm_compute in ("<<<M394>>>" ++ check (runes_of_ascii "u32 uint8x
-{ match pack
+Eval vm_compute in ("<<<M1241>>>" ++ check (runes_of_ascii "// top
+root
+    // c0
+packet // c1
+P // c2a
+  // c2b
+{ // c3
+char
+    // c4
+c // c5a
+  // c5b
+, // c6a
+  // c6b
+u8
+    // c7
+x // c8
+, // c9
+} // c10
+")).
+Eval vm_compute in ("<<<M408>>>" ++ check (runes_of_ascii "packet uint8x
+{ i8 pack
     as msg_type	{
     0123456789 :	float
 }
@@ -901,14 +822,21 @@ a1
     { } options {packetx
     = '\x00'	; u128= ""a	b""  ; }
 ")).
-Eval vm_compute in ("<<<M721>>>" ++ check (runes_of_ascii "// @lengthOf(
-packet i8i8 { u128 o , }
-options { MetaDataX = true;
-    BodyLength =""packet"" x_y_z= 007
-crc //x
-= ""abc"" msg_type
-    ; =
-i16 }")).
+Eval vm_compute in ("<<<M1288>>>" ++ check (runes_of_ascii "// top
+root
+    // c0
+packet P
+    // c2
+{ // c3a
+  // c3b
+repeat // c4
+string // c5
+ss , // c7
+repeat u16 ns ,
+    // c11
+} // c12a
+  // c12b
+")).
 Eval vm_compute in ("<<<M61>>>" ++ check (runes_of_ascii "packet
     i64_ { }
 MetaData uint8x {Packet tag , u8	repeatCount
@@ -920,257 +848,185 @@ _x `" ++ [233]%N ++ runes_of_ascii "`
     crc
 `a\` ,
 } options	{ }")).
-Eval vm_compute in ("<<<M144>>>" ++ check (runes_of_ascii "  MetaData falsey {o i8i8
-,char[]
-pack  ,
-float32 lengthOf , len //x
-BodyLength, BodyLength o
-, stringy  u128	`crlf
-line` , } 	 ")).
-Eval vm_compute in ("<<<M1564>>>" ++ check (runes_of_ascii "packet B {
+Eval vm_compute in ("<<<M1470>>>" ++ check (runes_of_ascii "packet A {
     u8 a,
+}
+
+packet B {
+    u16 b,
 }
 
 root packet P {
     u8 K,
-    match K as Body {
+    match K as M {
+        1 : A,
         1 : B,
     },
-    u16 L @lengthOf(Body),
 }")).
-Eval vm_compute in ("<<<M1158>>>" ++ check (runes_of_ascii "MetaData leftPad { chars MetaDataX , } packet
-// c
-repeatCount { char[ 255 ] uint8x `" ++ [233]%N ++ runes_of_ascii "` , } MetaData pack { As Foo , }")).
-Eval vm_compute in ("<<<M39>>>" ++ check (runes_of_ascii "options { o =
-    '\x00' // " ++ [128512]%N ++ runes_of_ascii " emoji
-; T = u32 ; msg_type
-// `tick` ""quote"" 'q'
-//
-= ""a	b""  a1 = '\x00'
-}
-// " ++ [128512]%N ++ runes_of_ascii " emoji
-")).
-Eval vm_compute in ("<<<M1601>>>" ++ check (runes_of_ascii "
-
-  packet A
-    {match
-
-    k  as  n { [
-	1
-,
-22	,""c c"",
-
-4
-,
-5
-, ""f"" 
-,
-
-7
-] : B
-,
-2
-
-    : C
-	}	,
-
+Eval vm_compute in ("<<<M1830>>>" ++ check (runes_of_ascii "packet A {
+    match k as n {
+        [
+            1, 22, 007, 4, 5,
+            66
+        ] : B,
+        2 : C,
+    },
 }")).
-Eval vm_compute in ("<<<M142>>>" ++ check (runes_of_ascii "packet
-len
-    // " ++ [128512]%N ++ runes_of_ascii " emoji
-    { int64 a1	@lengthOf(x_y_z )	, }
+Eval vm_compute in ("<<<M1146>>>" ++ check (runes_of_ascii "MetaData leftPad
 // c
-// trailing space 
-packet x_y_z { }
-
-")).
-Eval vm_compute in ("<<<M1691>>>" ++ check (runes_of_ascii "
-packet A
-
-    {
-
-    match
-
-k
-
-as n { [ 1 ,
-    22
-
-,007
-
-,
-    4
-	,	5 
-]  :
-B
-
-    2: C} ,}
-")).
-Eval vm_compute in ("<<<M590>>>" ++ check (runes_of_ascii "
+{ chars MetaDataX , } packet repeatCount { char[ 255 ] uint8x `" ++ [233]%N ++ runes_of_ascii "` , } MetaData pack { As Foo , }")).
+Eval vm_compute in ("<<<M1178>>>" ++ check (runes_of_ascii "MetaData leftPad { chars MetaDataX , } packet repeatCount { char[ 255 ] uint8x `" ++ [233]%N ++ runes_of_ascii "` , } MetaData
+// c
+pack { As Foo , }")).
+Eval vm_compute in ("<<<M961>>>" ++ check (runes_of_ascii "packet A {
+    u16 len @lengthOf(body) `tab
+	x`,
+    u32 crc @calculatedFrom(""CRC32"") `tab
+	x`,
+    string body,
+}")).
+Eval vm_compute in ("<<<M881>>>" ++ check (runes_of_ascii "packet A {
+  match k as n {
+    [""a"", ""bb"", ""c c"", ""d"", ""e"", ""f"", ""g"", ""h"", ""i"", ""j""] : B
+    2 : C
+  },
+}")).
+Eval vm_compute in ("<<<M868>>>" ++ check (runes_of_ascii "packet A {
+  match k as n {
+    [""a"", ""bb"", ""c c"", ""d"", ""e"", ""f"", ""g"", ""h"", ""i""] : B
+    2 : C
+  },
+}")).
+Eval vm_compute in ("<<<M900>>>" ++ check (runes_of_ascii "packet A {
+  match k as n {
+    [1, 22, ""c c"", 4, 5, ""f"", 7, 8, ""i"", 10, 11] : B
+    2 : C
+  },
+}")).
+Eval vm_compute in ("<<<M565>>>" ++ check (runes_of_ascii "
 packet
-    asx {match u128 as lengthOf
-MetaData
+    asx true match u128 as lengthOf
+{
 //	t
 // `tick` ""quote"" 'q'
 255 : x ,
     } ,	}")).
-Eval vm_compute in ("<<<M1757>>>" ++ check (runes_of_ascii "packet
-
-    A {
-	match
-
-    k
-
-    as
-	n  {
-1: 
-B  // a
-
-// b
-2
-
-:
-    C
-
-    }
-	, } ")).
-Eval vm_compute in ("<<<M631>>>" ++ check (runes_of_ascii "
+Eval vm_compute in ("<<<M645>>>" ++ check (runes_of_ascii "
 packet
     asx {match u128 as lengthOf
 {
 //	t
 // `tick` ""quote"" 'q'
-255 %: x ,
+255 : a" ++ [769]%N ++ runes_of_ascii "b ,
     } ,	}")).
-Eval vm_compute in ("<<<M1546>>>" ++ check (runes_of_ascii "packet A {
-    match k as n {
-        [1, 007, 5, ""bb"", ""d""] : B,
-        2 : C,
-    },
+Eval vm_compute in ("<<<M609>>>" ++ check (runes_of_ascii "
+packet
+    asx {match u128 as lengthOf
+{
+//	t
+// `tick` ""quote"" 'q'
+255 : x }
+    , ,	}")).
+Eval vm_compute in ("<<<M1636>>>" ++ check (runes_of_ascii "packet len {
+    int64 a1 @lengthOf(x_y_z),
+}
+
+// c
+// trailing space 
+packet x_y_z {
 }")).
-Eval vm_compute in ("<<<M1289>>>" ++ check (runes_of_ascii "
-root
+Eval vm_compute in ("<<<M553>>>" ++ check (runes_of_ascii "
+
+    asx {match u128 as lengthOf
+{
+//	t
+// `tick` ""quote"" 'q'
+255 : x ,
+    } ,	}")).
+Eval vm_compute in ("<<<M834>>>" ++ check (runes_of_ascii "packet A {
+  match k as n {
+    [1, 22, ""c c"", 4, 5, ""f""] : B,
+    2 : C
+  },
+}")).
+Eval vm_compute in ("<<<M818>>>" ++ check (runes_of_ascii "packet A {
+  match k as n {
+    [1, ""bb"", 007, ""d"", 5] : B
+    2 : C
+  },
+}")).
+Eval vm_compute in ("<<<M814>>>" ++ check (runes_of_ascii "packet A {
+  match k as n {
+    [1, 22, 007, 4, 5] : B
+    2 : C
+  },
+}")).
+Eval vm_compute in ("<<<M1755>>>" ++ check (runes_of_ascii "MetaData M {
+    u8 x `tab
+        	x`,
+    T t `tab
+        	x`,
+}")).
+Eval vm_compute in ("<<<M2>>>" ++ check (runes_of_ascii "root
+// trailing space 
+// " ++ [27880; 37322]%N ++ runes_of_ascii "
+packet
+u{  } // trailing space ")).
+Eval vm_compute in ("<<<M1754>>>" ++ check (runes_of_ascii "
+
+  root
 
     packet
-
-P
-{repeat	string
-    ss
-    ,  repeat
-    u16
-ns
-    ,
-
-    }
+    chars	{
+i16
+    leftPad	,  }
 ")).
-Eval vm_compute in ("<<<M1511>>>" ++ check (runes_of_ascii "packet A {
-    match k as n {
-        [22, ""a"", ""c c""] : B,
-        2 : C,
-    },
-}")).
-Eval vm_compute in ("<<<M1252>>>" ++ check (runes_of_ascii "packet Inner {
-    u8 a,
-}
-root packet P {
-    repeat Inner items,
-    u8 x,
-}
-")).
-Eval vm_compute in ("<<<M1484>>>" ++ check (runes_of_ascii "  options
-    { // " ++ [128512]%N ++ runes_of_ascii " emoji
-
-Packet 
-= // `tick` ""quote"" 'q'
-
-	char[ 3 ] }
-
-")).
-Eval vm_compute in ("<<<M1821>>>" ++ check (runes_of_ascii "packet
-	A{ B
-    b `a
-
-b` 
-,  B
-
-    `a
-
-b`	,
-repeat  B
-	bs `a
-
-b` , }")).
-Eval vm_compute in ("<<<M1280>>>" ++ check (runes_of_ascii "root packet P {
-    u16 a,
-    u32 Sum @calculatedFrom(""CRC32""),
-}
-")).
-Eval vm_compute in ("<<<M365>>>" ++ check (runes_of_ascii "MetaData x_y_z { i8i8 u8x , string	uint8x
-    `crlf
-line` , }")).
-Eval vm_compute in ("<<<M1628>>>" ++ check (runes_of_ascii "MetaData M {
-    u8 x `tab
-    	x`,
-    T t `tab
-    	x`,
-}")).
-Eval vm_compute in ("<<<M1198>>>" ++ check (runes_of_ascii "
+Eval vm_compute in ("<<<M1078>>>" ++ check (runes_of_ascii "// a
+MetaData M {} // b
 // c
-packet body { i32 f32a `{ , }` , } options { }")).
-Eval vm_compute in ("<<<M1085>>>" ++ check (runes_of_ascii "packet A { B { // a
- u8 x, // b
- } // c
- , // d
- }")).
-Eval vm_compute in ("<<<M1600>>>" ++ check (runes_of_ascii "packet A 
-{
-
-u8
-x	`d 	`
-    ,  // c 	
-  }
-")).
-Eval vm_compute in ("<<<M1782>>>" ++ check (runes_of_ascii "
-options{
-
-a
-	= ""\
-""
-;
-b
-=
-""\
-"" 
-}
-")).
-Eval vm_compute in ("<<<M132>>>" ++ check (runes_of_ascii "options
-    { Foo = 0123456789
-; }")).
-Eval vm_compute in ("<<<M1814>>>" ++ check (runes_of_ascii "packet A {
+MetaData N {} // d
+// e")).
+Eval vm_compute in ("<<<M777>>>" ++ check (runes_of_ascii "packet A { Inner { match k as n { [1] : B, }, }, }")).
+Eval vm_compute in ("<<<M1554>>>" ++ check (runes_of_ascii "options {
+    a = ""\
+    "";
+    b = ""\
+    ""
+}")).
+Eval vm_compute in ("<<<M933>>>" ++ check (runes_of_ascii "MetaData M {
     u8 x `
-    x`,
+`,
+    T t `
+`,
 }")).
-Eval vm_compute in ("<<<M381>>>" ++ check (runes_of_ascii "options{
-int
-=char[] ; }
-//
+Eval vm_compute in ("<<<M1669>>>" ++ check (runes_of_ascii "options
+{ Foo
+=
+0123456789
+	;
+	}
 ")).
-Eval vm_compute in ("<<<M326>>>" ++ check (runes_of_ascii "  options{// a // b
+Eval vm_compute in ("<<<M1574>>>" ++ check (runes_of_ascii "packet A {
+    u8 x `d" ++ [6158]%N ++ runes_of_ascii "`,// c" ++ [6158]%N ++ runes_of_ascii "
+}")).
+Eval vm_compute in ("<<<M1048>>>" ++ check (runes_of_ascii "packet A {
+ u8 x `d" ++ [8203]%N ++ runes_of_ascii "`, // c" ++ [8203]%N ++ runes_of_ascii "
+}")).
+Eval vm_compute in ("<<<M929>>>" ++ check (runes_of_ascii "packet A {
+    u8 x `
+`,
+}")).
+Eval vm_compute in ("<<<M51>>>" ++ check (runes_of_ascii "options {} // " ++ [128512]%N ++ runes_of_ascii " emoji")).
+Eval vm_compute in ("<<<M162>>>" ++ check (runes_of_ascii "
+packet f32a  { }
+")).
+Eval vm_compute in ("<<<M1001>>>" ++ check (runes_of_ascii "packet A {
 }
-
+// c" ++ [8192]%N)).
+Eval vm_compute in ("<<<M277>>>" ++ check (runes_of_ascii "MetaData i64_ { }")).
+Eval vm_compute in ("<<<M310>>>" ++ check (runes_of_ascii "
+MetaData A {}
 ")).
-Eval vm_compute in ("<<<M1108>>>" ++ check (runes_of_ascii "MetaData tag
-// c
-{ }")).
-Eval vm_compute in ("<<<M95>>>" ++ check (runes_of_ascii "
-packet  Logon {}
+Eval vm_compute in ("<<<M241>>>" ++ check (runes_of_ascii "/// triple
 ")).
-Eval vm_compute in ("<<<M1046>>>" ++ check (runes_of_ascii "packet A {
-}
-// c" ++ [8203]%N)).
-Eval vm_compute in ("<<<M1044>>>" ++ check (runes_of_ascii "packet A {
-}// c" ++ [8203]%N)).
-Eval vm_compute in ("<<<M99>>>" ++ check (runes_of_ascii "
- // " ++ [128512]%N ++ runes_of_ascii " emoji")).
-Eval vm_compute in ("<<<M980>>>" ++ check (runes_of_ascii "// c" ++ [12288]%N)).
-Eval vm_compute in ("<<<M737>>>" ++ check ([1875; 65533]%N)).
+Eval vm_compute in ("<<<M1035>>>" ++ check (runes_of_ascii "// c" ++ [12]%N)).
